@@ -94,6 +94,19 @@ def fork_call(fn, args: tuple, timeout: float) -> dict:
         os.close(r)
         try:
             try:
+                import ctypes
+
+                ctypes.CDLL(None).prctl(1, signal.SIGKILL)  # PR_SET_PDEATHSIG: never outlive the worker
+            except Exception:
+                pass
+            try:
+                import resource
+
+                lim = int(os.environ.get("SIMPLAN_CHILD_AS_BYTES", 6 << 30))
+                resource.setrlimit(resource.RLIMIT_AS, (lim, lim))  # a runaway allocation becomes MemoryError, not an OOM kill
+            except Exception:
+                pass
+            try:
                 out = fn(*args)
             except BaseException as e:  # harness bug inside the child
                 out = {"harness": f"{type(e).__name__}: {e}", "tb": traceback.format_exc()[-1500:]}
